@@ -12,6 +12,7 @@ import (
 	"github.com/Eyevinn/mp4ff/bits"
 	"github.com/Eyevinn/mp4ff/internal/vsim/ref"
 	"github.com/Eyevinn/mp4ff/internal/vsim/sim"
+	"github.com/Eyevinn/mp4ff/internal/vsim/work"
 	"github.com/Eyevinn/mp4ff/mp4"
 )
 
@@ -35,6 +36,9 @@ type c19Track struct {
 	timescale uint32
 	lang      string
 	sps       []byte // AVC: the supplied sequence parameter set (profile_idc seeded within the high family)
+	w, h      int    // AVC: the luma picture size the supplied SPS codes
+	chroma    int    // AVC: chroma_format_idc and bit depths (minus 8) the supplied SPS codes
+	bdl, bdc  int
 	desc      string // avc1 avc3 hvc1 hev1 aac ac3 ec3 wvtt stpp none
 	includePS bool
 	aacObj    byte
@@ -158,7 +162,15 @@ func c19Build(r *sim.Run) (*mp4.InitSegment, []c19Track, error) {
 			// the same picture format under another profile_idc of the family that shares the SPS syntax (High,
 			// High 10, High 4:2:2, High 4:4:4 Predictive, CAVLC 4:4:4, scalable/multiview/3D profiles)
 			tr.sps = append([]byte(nil), c19AvcSPS...)
-			if t.Chance(300) {
+			tr.w, tr.h, tr.chroma = 1280, 720, 1
+			if t.Chance(400) {
+				// a sequence parameter set written by the harness (seeded profile, chroma format, picture size in
+				// macroblocks, frame/field coding, cropping) together with the picture size it codes
+				var d string
+				tr.sps, tr.w, tr.h, tr.chroma, tr.bdl, tr.bdc, d = work.DrawAVCSPS(t)
+				r.Logf("AVC SPS written by the harness: %s", d)
+				r.Probe("avc-sps-generated")
+			} else if t.Chance(300) {
 				tr.sps[1] = []byte{110, 122, 244, 44, 83, 86, 118, 128, 139, 134, 135}[t.Draw(11)]
 				r.Probe("avc-profile-other-than-100")
 			}
@@ -324,7 +336,7 @@ func c19CheckBytes(r *sim.Run, data []byte, model []c19Track) {
 		switch tr.desc {
 		case "avc1", "avc3", "hvc1", "hev1":
 			w, h := u16at(data, se.Payload()+24), u16at(data, se.Payload()+26)
-			ww, wh := 1280, 720
+			ww, wh := tr.w, tr.h
 			if tr.desc[0] == 'h' {
 				ww, wh = 960, 540
 			}
@@ -358,6 +370,16 @@ func c19CheckBytes(r *sim.Run, data []byte, model []c19Track) {
 				}
 				if !tr.includePS && present {
 					r.Violate("c19-parameter-sets", "%s: parameter set present although includePS=false", who)
+				}
+			}
+			if tr.desc[0] == 'a' && tr.sps[1] != 66 && tr.sps[1] != 77 && tr.sps[1] != 88 {
+				// the record ends with chroma_format, bit_depth_luma_minus8, bit_depth_chroma_minus8, numOfSPSExt
+				// (ISO/IEC 14496-15 5.3.3.1.2): they describe the supplied SPS
+				if len(cb) >= 4 {
+					tl := cb[len(cb)-4:]
+					if int(tl[0]&3) != tr.chroma || int(tl[1]&7) != tr.bdl || int(tl[2]&7) != tr.bdc {
+						r.Violate("c19-codec-config", "%s: avcC says chroma_format %d, bit depths 8+%d/8+%d; the supplied SPS codes chroma_format_idc %d, bit depths 8+%d/8+%d", who, tl[0]&3, tl[1]&7, tl[2]&7, tr.chroma, tr.bdl, tr.bdc)
+					}
 				}
 			}
 			if tr.desc[0] == 'a' { // profile, compatibility, level come from SPS bytes 1..3
@@ -470,6 +492,16 @@ func c19Run(r *sim.Run) {
 	if !f.IsFragmented() || f.Init == nil || f.Init.Moov == nil {
 		r.Violate("c19-not-fragmented", "decoded init is not recognised as a fragmented init (IsFragmented=%v, Init=%v)", f.IsFragmented(), f.Init != nil)
 		return
+	}
+	// for the Baseline/Main/Extended profiles the AVC configuration record has no chroma-format / bit-depth fields:
+	// what the constructor put into those struct fields is not part of the encoded form and cannot come back
+	for _, trak := range init.Moov.Traks {
+		if sd := trak.Mdia.Minf.Stbl.Stsd; sd != nil && sd.AvcX != nil && sd.AvcX.AvcC != nil {
+			switch c := &sd.AvcX.AvcC.DecConfRec; c.AVCProfileIndication {
+			case 66, 77, 88:
+				c.ChromaFormat, c.BitDepthLumaMinus1, c.BitDepthChromaMinus1, c.NumSPSExt = 0, 0, 0, 0
+			}
+		}
 	}
 	deepIgnore = map[string]bool{"StartPos": true} // positions exist only on the decoded side
 	d := deepEquiv(f.Init.Moov, init.Moov)
